@@ -103,7 +103,8 @@ func (manager *Manager) handler() {
 			}
 			manager.providersMutex.Unlock()
 
-			close(manager.inChnl)
+			// The inChnl is not closed. A CLA whose registration is still in progress, compare registerConvergence,
+			// might report its first status right now; sending to a closed channel would panic.
 			close(manager.outChnl)
 
 			close(manager.stopAck)
